@@ -50,6 +50,19 @@ def oracle_jac(res, a, rhs, entry, where, rng, case, neq):
 
 
 def corr_jac(res, a, entry_texts, where, case):
+    # exact text of the species block (C02.jac_text_is_derivative is about this very string)
+    if where.startswith("channel A") and a.model is not None and a.m_model_obj is not None:
+        n = a.m_neq
+        mt = a.m_model_obj.call("ode.jactext", a.nspec, a.rx, a.mods, a.heat, a.cool, a.aliases)
+        k = 0
+        for r in range(a.nspec):
+            for c in range(a.nspec):
+                if mt[k] != "none" and entry_texts[r * n + c].strip() != mt[k]:
+                    res.corr_disagreements += 1
+                    res.violation("correspondence", f"{where}: text of entry ({r},{c}): implementation {entry_texts[r * n + c].strip()[:160]!r} != model text {mt[k][:160]!r}", case)
+                    return
+                k += 1
+        res.count("Jacobian entries compared as exact text", sum(1 for x in mt if x != "none"))
     for idx, t in enumerate(entry_texts):
         try:
             c = ol.canon(*ol.parse_sum(t))
